@@ -38,12 +38,18 @@ structure Cfg where
   auxReport : Bool    -- a cached auxiliary coordinate brings its component report along
   closeOnError : Bool -- files are closed when reading raises
   charFix : Bool      -- `_dimensions_are_subset` without the char-array exception
+  vcrsPerField : Bool -- `g['vertical_crs']` is emptied at the start of every field (7931fa5)
   deriving DecidableEq, Repr
 
-def patched : Cfg := ⟨true, true, true, true, true, true, true, true⟩
-/-- The repository after the merged `fix:` commits: everything but the formula-terms patch. -/
-def head : Cfg := ⟨false, false, true, true, true, true, true, true⟩
-def coded : Cfg := ⟨false, false, false, false, false, false, false, false⟩
+/-- The reader at /repo HEAD: every proposed C13 patch has been merged (7b28365, 1b77cae, ff51328,
+a2825bb, 3d11366, abceba4, 6faacb8, and 5f7d1ae for closing on error), and 7931fa5 (C09) made
+`g['vertical_crs']` per-field state. -/
+def patched : Cfg := ⟨true, true, true, true, true, true, true, true, true⟩
+/-- The repository at HEAD (= `patched` since 6faacb8 and 7931fa5). -/
+def head : Cfg := patched
+/-- HEAD before 7931fa5: the vertical coordinate references leak from one field to the next. -/
+def leakyVcrs : Cfg := { patched with vcrsPerField := false }
+def coded : Cfg := ⟨false, false, false, false, false, false, false, false, false⟩
 
 inductive Kind | num | str | chr
   deriving DecidableEq, Repr
@@ -967,6 +973,8 @@ def createField (cfg : Cfg) (F : NcFile) (P : Pre) (C : Caches) (vv : NcVar) : E
   | .error e => .error e
   | .ok D =>
     let pre := (P.msgs.filter (fun m => m.1 == some vv.name)).map (·.2)
+    -- 7931fa5: `g["vertical_crs"] = {}` next to the reset of `g["domain_ancillary_key"]`
+    let C := if cfg.vcrsPerField then { C with vcrs := [] } else C
     match runStages cfg F P vv D { C := C, out := { elems := [], msgs := pre } } with
     | .error e => .error e
     | .ok s => .ok (s.out, s.C)
